@@ -5,6 +5,7 @@ from random import shuffle
 
 import torch
 
+from leaspy.exceptions import LeaspyAlgoInputError
 from leaspy.io.data import Dataset
 from leaspy.io.outputs.individual_parameters import IndividualParameters
 from leaspy.models import McmcSaemCompatibleModel
@@ -52,6 +53,11 @@ class McmcPersonalizeAlgorithm(
         model: McmcSaemCompatibleModel,
         dataset: Dataset,
     ) -> IndividualParameters:
+        if self.algo_parameters["n_burn_in_iter"] >= self.algo_parameters["n_iter"]:
+            raise LeaspyAlgoInputError(
+                "The memory-less (burn-in) phase covers all the iterations: no sample would be kept "
+                "to estimate individual parameters. Decrease `n_burn_in_iter_frac` (or `n_burn_in_iter`)."
+            )
         individual_variable_names = sorted(
             list(model.dag.sorted_variables_by_type[IndividualLatentVariable])
         )
